@@ -108,7 +108,9 @@ func specialRoundTrip(c *specialCtx) {
 	for _, m := range []int{1, 2, 3, 4, 5, 6, 7, 8, 9, 21, 51, 52, 53} {
 		sgrs = append(sgrs, fmt.Sprint(m))
 	}
-	cols := []string{"39", "30", "37", "90", "97", "38;5;0", "38;5;7", "38;5;8", "38;5;15", "38;5;16", "38;5;255", "38;2;0;0;0", "38;2;255;128;1", "38;2;1;2;3"}
+	// RGB values whose packed form collides with small constants (0x000000, 0x000100 = (0,1,0), 0x000001, 0x010000) included
+	cols := []string{"39", "30", "37", "90", "97", "38;5;0", "38;5;7", "38;5;8", "38;5;15", "38;5;16", "38;5;255", "38;2;0;0;0", "38;2;255;128;1", "38;2;1;2;3",
+		"38;2;0;1;0", "38;2;0;0;1", "38;2;1;0;0", "38;2;255;255;255", "38;5;1"}
 	for _, fg := range cols {
 		for _, bg := range cols {
 			sgrs = append(sgrs, fg+";"+strings.Replace(strings.Replace(strings.Replace(bg, "38;", "48;", 1), "39", "49", 1), "3", "4", 0))
@@ -137,10 +139,23 @@ func specialRoundTrip(c *specialCtx) {
 	if d0 != nil {
 		defer d0.close()
 	}
+	// rows of two or three runs: the escape from one run's style to the next (ANSIEscapeFrom)
+	nSingle := len(sgrs)
+	type styled struct{ sg, text string }
+	var jobs []styled
 	for _, sg := range sgrs {
+		jobs = append(jobs, styled{sg, "\x1b[" + sg + "mab🐹"})
+	}
+	for k := 0; k < 1500; k++ {
+		a, b2, c3 := sgrs[r.intn(nSingle)], sgrs[r.intn(nSingle)], sgrs[r.intn(nSingle)]
+		reset := pick(r, []string{"", "0;", "", "22;23;24;25;27;28;29;"})
+		jobs = append(jobs, styled{a + " > " + b2, "\x1b[" + a + "ma\x1b[" + reset + b2 + "mb\x1b[" + pick(r, []string{"", "0;"}) + c3 + "m🐹"})
+	}
+	for _, job := range jobs {
+		sg := job.sg
 		for _, grid := range []bool{false, true} {
 			im, _ := newImpl(0, grid, 6, 1)
-			feedAll(im, []byte("\x1b["+sg+"mab🐹"))
+			feedAll(im, []byte(job.text))
 			orig := rowsOfActive(im)
 			ansi := im.term.ANSILine(0)
 			fresh, _ := newImpl(0, grid, 6, 1)
@@ -419,6 +434,11 @@ func specialStreams(c *specialCtx) {
 						script = append(script, chunk{data: data[off : off+n]})
 					}
 					script = append(script, chunk{err: e})
+					if r.chance(1, 2) {
+						// a backend that would deliver again after a read that reported the error with no
+						// data (wherever in a sequence it arrived): the loop has stopped and must not ask
+						script = append(script, chunk{data: []byte("late\r\n")})
+					}
 				}
 				off += n
 				expected = data[:off]
@@ -703,6 +723,9 @@ type pipeBackend struct {
 	r     *io.PipeReader
 	wmu   sync.Mutex
 	wrote int
+	// repaint: when set, SetSize behaves like an in-process application that repaints on a
+	// size change: it writes to the terminal's input and returns when that has been read
+	repaint atomic.Pointer[io.PipeWriter]
 }
 
 func (p *pipeBackend) Read(b []byte) (int, error) { return p.r.Read(b) }
@@ -712,7 +735,13 @@ func (p *pipeBackend) Write(b []byte) (int, error) {
 	p.wmu.Unlock()
 	return len(b), nil
 }
-func (p *pipeBackend) SetSize(w, h int) error { return nil }
+func (p *pipeBackend) SetSize(w, h int) error {
+	if pw := p.repaint.Load(); pw != nil {
+		_, _ = pw.Write([]byte("\x1b[H\x1b[2Jrepainted "))
+		_, _ = pw.Write([]byte(fmt.Sprintf("for %dx%d\r\n", w, h)))
+	}
+	return nil
+}
 
 type lockProbeFrontend struct {
 	next     te.Frontend // optional: callbacks are forwarded
@@ -838,6 +867,21 @@ func lockScenario(seed int64) int {
 			fmt.Printf("lock held while waiting for input after %q\n", part)
 			return 3
 		}
+	}
+
+	// 1b. a backend whose SetSize feeds the terminal and waits until that has been read (an
+	// in-process application repainting on resize): Resize must not hold the lock across it
+	{
+		be.repaint.Store(pw)
+		resized := make(chan struct{})
+		go func() { _ = term.Resize(22, 7); close(resized) }()
+		select {
+		case <-resized:
+		case <-time.After(8 * time.Second):
+			fmt.Println("deadlock: Resize did not return while the backend's SetSize was feeding the terminal (lock held across the backend call)")
+			return 10
+		}
+		be.repaint.Store(nil)
 	}
 
 	// 2. concurrent use of the documented API
@@ -1121,4 +1165,210 @@ func readerBufferCheck(c *specialCtx, d *driver, r *prng, idx int) {
 		c.violation("reader-lost-bytes", fmt.Sprintf("source delivered %d bytes, reader handed out %d", total, consumedTotal), map[string]any{"seed": idx})
 	}
 	c.count(fmt.Sprint("reader", idx))
+}
+
+// ---------------------------------------------------------------- C18 resize while the loop waits
+
+// gateBackend hands the read loop one chunk at a time and knows when the loop is
+// blocked waiting for the next one.
+type gateBackend struct {
+	ch        chan []byte
+	rest      []byte
+	waiting   atomic.Bool
+	waits     atomic.Int64 // how many times the loop has started to wait for a chunk
+	delivered atomic.Int64
+	mu        sync.Mutex
+	written   []byte
+}
+
+func (g *gateBackend) Read(p []byte) (int, error) {
+	if len(g.rest) == 0 {
+		g.waits.Add(1)
+		g.waiting.Store(true)
+		b, ok := <-g.ch
+		g.waiting.Store(false)
+		if !ok {
+			return 0, io.EOF
+		}
+		g.rest = b
+	}
+	n := copy(p, g.rest)
+	g.rest = g.rest[n:]
+	g.delivered.Add(int64(n))
+	return n, nil
+}
+func (g *gateBackend) Write(p []byte) (int, error) {
+	g.mu.Lock()
+	g.written = append(g.written, p...)
+	g.mu.Unlock()
+	return len(p), nil
+}
+func (g *gateBackend) SetSize(w, h int) error { return nil }
+
+// specialResizeIdle runs the real background read loop and resizes the terminal while the
+// loop is blocked waiting for input (after it has measured the row for its next read); the
+// state at every idle point must equal the model's after the same history.
+func specialResizeIdle(c *specialCtx) {
+	prof := profiles["C18"]
+	master := newPrng(uint64(c.seed) + 77)
+	seeds := make([]uint64, c.n)
+	for i := range seeds {
+		seeds[i] = master.next()
+	}
+	c.parallel(c.n, func(i int, d *driver) {
+		r := newPrng(seeds[i])
+		cs := genCase(prof, r)
+		cs.Mode = 0
+		be := &gateBackend{ch: make(chan []byte)}
+		fe := newRecFrontend()
+		vt := te.VerifNew(fe, be, te.TextReadModeRune, cs.Grid)
+		term := vt.Terminal()
+		fe.term, fe.vt = term, vt
+		_ = term.Resize(cs.W, cs.H)
+		pol := "keep"
+		if cs.Grid {
+			pol = "blank"
+		}
+		if _, err := d.cmdBlock(fmt.Sprintf("case %s %d %d", pol, cs.W, cs.H)); err != nil {
+			return
+		}
+		done := vt.StartLoop()
+		finish := func() {
+			close(be.ch)
+			select {
+			case <-done:
+			case <-time.After(10 * time.Second):
+			}
+		}
+		// idle(k): the loop has started its (k+1)-th wait, i.e. everything sent so far is consumed
+		idle := func(after int64) bool {
+			deadline := time.Now().Add(10 * time.Second)
+			for time.Now().Before(deadline) {
+				if be.waits.Load() > after && be.waiting.Load() {
+					return true
+				}
+				time.Sleep(50 * time.Microsecond)
+			}
+			return false
+		}
+		snapshot := func() obsBlock {
+			var o obsBlock
+			term.WithLock(func() {
+				snap := vt.Snap()
+				o.G = fmt.Sprintf("G %d %d", int(be.delivered.Load())-vt.Buffered(), b2i(snap.OnAlt))
+				o.M = scrLine("M", &snap.Screens[0], snap.KbdFlags[0], snap.KbdStack[0])
+				o.A = scrLine("A", &snap.Screens[1], snap.KbdFlags[1], snap.KbdStack[1])
+				o.rows, o.all = map[string]string{}, map[string]string{}
+				for b := 0; b < 2; b++ {
+					for y := range snap.Screens[b].Rows {
+						o.all[fmt.Sprintf("%d %d", b, y)] = rowString(cellsOfVerif(snap.Screens[b].Rows[y].Cells))
+					}
+				}
+			})
+			return o
+		}
+		payload := map[string]any{"case": cs}
+		var hist []string
+		modelRows := map[string]string{}
+		check := func(mo modelObs, what string) bool {
+			for k, v := range mo.rows {
+				modelRows[k] = v
+			}
+			o := snapshot()
+			var diffs []string
+			if mo.lines["G"] != o.G {
+				diffs = append(diffs, fmt.Sprintf("impl[%s] model[%s]", o.G, mo.lines["G"]))
+			}
+			for _, k := range []string{"M", "A"} {
+				got := o.M
+				if k == "A" {
+					got = o.A
+				}
+				g1, _, _ := splitScr(got)
+				g2, _, _ := splitScr(mo.lines[k])
+				if g1 != g2 {
+					diffs = append(diffs, fmt.Sprintf("impl[%s] model[%s]", got, mo.lines[k]))
+				}
+			}
+			for k, v := range o.all {
+				if mv, ok := modelRows[k]; ok && mv != v {
+					diffs = append(diffs, fmt.Sprintf("row %s impl[%s] model[%s]", k, v, mv))
+				}
+			}
+			if len(diffs) > 0 {
+				c.violation("resize-while-waiting", fmt.Sprintf("history %v, after %s: %s", hist, what, truncate(strings.Join(diffs, "; "), 900)), payload)
+				return false
+			}
+			return true
+		}
+		if !idle(0) {
+			finish()
+			return
+		}
+		sent := 0
+		ok := true
+		for _, it := range cs.Items {
+			if !ok {
+				break
+			}
+			switch it.Kind {
+			case "resize":
+				// the loop has measured the row for its next read and is waiting for the data
+				_ = term.Resize(it.W, it.H)
+				hist = append(hist, fmt.Sprintf("Resize(%d,%d)", it.W, it.H))
+				mo, err := d.cmdBlock(fmt.Sprintf("resize %d %d", it.W, it.H))
+				if err != nil {
+					ok = false
+					break
+				}
+				if len(mo.rows) > 0 {
+					modelRows = map[string]string{}
+				}
+				ok = check(mo, hist[len(hist)-1])
+			case "in":
+				b := it.bytes()
+				if len(b) == 0 {
+					continue
+				}
+				w0 := be.waits.Load()
+				be.ch <- append([]byte(nil), b...)
+				sent += len(b)
+				if !idle(w0) {
+					c.violation("wedge", fmt.Sprintf("history %v: the read loop did not come back for more input within 10 s", hist), payload)
+					ok = false
+					break
+				}
+				hist = append(hist, fmt.Sprintf("%q", b))
+				if len(hist) > 12 {
+					hist = hist[len(hist)-12:]
+				}
+				_ = d.send("feed " + hex.EncodeToString(b))
+				consumed := int(be.delivered.Load()) - vt.Buffered()
+				mo, err := d.cmdBlock(fmt.Sprintf("adv %d", consumed))
+				if err != nil {
+					ok = false
+					break
+				}
+				if strings.Contains(strings.Join(mo.tags, ","), "tK") || mo.X != "" {
+					ok = false // sanctioned corner / framing is the business of other checks
+					break
+				}
+				ok = check(mo, hist[len(hist)-1])
+			}
+		}
+		finish()
+		c.count(fmt.Sprint(signatureOfCaseItems(&cs)))
+		if i < 2 {
+			c.sample(fmt.Sprintf("%dx%d grid=%v, %d items with the loop running in the background", cs.W, cs.H, cs.Grid, len(cs.Items)))
+		}
+	})
+}
+
+func signatureOfCaseItems(c *Case) string {
+	var sb strings.Builder
+	fmt.Fprintf(&sb, "%dx%d %v", c.W, c.H, c.Grid)
+	for _, it := range c.Items {
+		sb.WriteString(" " + it.Kind + ":" + it.Class)
+	}
+	return sb.String()
 }
